@@ -85,11 +85,6 @@ def bitop(op, a, b):
     if op == '&':
         if is_pow2m1(b): return _lift(a) % (b + 1)
         if is_pow2m1(a): return _lift(b) % (a + 1)
-    if op == '^' and (is_pow2m1(b) or is_pow2m1(a)):
-        # x ^ (2^k - 1) == (2^k - 1) - x for 0 <= x < 2^k (exact); outside that range the uninterpreted function
-        m, x = (b, a) if is_pow2m1(b) else (a, b)
-        x = _lift(x)
-        return z3.If(z3.And(x >= 0, x <= m), m - x, _uf('py_xor')(*( (x, z3.IntVal(m)) if x.sexpr() <= z3.IntVal(m).sexpr() else (z3.IntVal(m), x))))
     if op == '<<' and not is_sym(b) and b >= 0:
         return _lift(a) * (1 << b)
     if op == '>>' and not is_sym(b) and b >= 0:
@@ -110,6 +105,11 @@ def bitop(op, a, b):
                 term = bit * (1 << i)
                 tot = term if tot is None else tot + term
             return tot
+        if op == '^' and (is_pow2m1(b) or is_pow2m1(a)):
+            # x ^ (2^k - 1) == (2^k - 1) - x for 0 <= x < 2^k (exact); outside that range the uninterpreted function
+            m, x = (b, a) if is_pow2m1(b) else (a, b)
+            x = _lift(x)
+            return z3.If(z3.And(x >= 0, x <= m), m - x, _uf('py_xor')(*( (x, z3.IntVal(m)) if x.sexpr() <= z3.IntVal(m).sexpr() else (z3.IntVal(m), x))))
         a, b = _lift(a), _lift(b)
         if a.sexpr() > b.sexpr():       # & | ^ are commutative: canonical argument order for the UF
             a, b = b, a
